@@ -21,5 +21,5 @@ Separate Extraction
   HuffEnc.HuffmanEncoder_encode HuffDec.decode_huffman
   Decoder.Decoder_init Decoder.dstep Decoder.decode_huffman_m Decoder.HeaderTable_init
   Encoder.Encoder_init Encoder.estep Encoder.huffman_encode_m
-  Rel.ctx_of Api.Encoder_encode_api
+  Rel.ctx_of Api.Encoder_encode_api Data.DEFAULT_MAX_HEADER_LIST_SIZE
   BinInt.Z.of_nat BinInt.Z.to_nat BinInt.Z.add BinInt.Z.mul.
